@@ -394,6 +394,39 @@ def run(db, tier):
                     pty = True
     rep.check(pty, "R-ARITY", "check_expr_call|arg_ty-vs-param_ty", f.loc, "argument type is compared with the parameter type",
               "no comparison between the checked argument type and the signature's parameter type")
+    # ---------------- R-FUNC-STACK: the function whose return type `return` is checked against is the enclosing one
+    import re as _re
+    from rules import symeval as SY
+    rep.rule("R-FUNC-STACK", "visit_item pushes a function's state before walking it and pops it on every path afterwards (a state left on the stack "
+                             "makes later `return` statements be checked against the wrong function, or accepted outside any function)")
+    SY.set_aliases([])
+    vi = db.fn("<passes::type_check::Visitor<'_, '_> as ast::ref_::Visit>::visit_item")
+    rep.fn(vi)
+    paths = [p_ for p_ in SY.fn_paths(db, vi.id, effect_re=_re.compile(r"Vec::(push|pop)$|::walk_item$")) if p_[2] is None]
+    n_push = 0
+    bad = None
+    for conds, events, fl, st in paths:
+        depth = 0
+        order = []
+        for e in events:
+            if e[0] != "effect":
+                continue
+            recv = SY.render(e[2][0]) if e[2] else ""
+            if e[1] == "push" and recv == "self.cur_func_stack":
+                depth += 1
+                n_push += 1
+                order.append("push")
+            elif e[1] == "pop" and recv == "self.cur_func_stack":
+                depth -= 1
+                order.append("pop")
+            elif e[1] == "walk_item":
+                order.append("walk")
+        if depth != 0 and bad is None:
+            bad = ("unbalanced", order, [(k, v) for k, v, _ in conds])
+        if "push" in order and order[:3] != ["push", "walk", "pop"] and bad is None:
+            bad = ("order", order, [(k, v) for k, v, _ in conds])
+    rep.check(bad is None and n_push >= 1, "R-FUNC-STACK", "visit_item|push-walk-pop", vi.loc, "%d paths; a function is pushed, walked and popped on each path that pushes" % len(paths),
+              "visit_item has a path with %s stack use %s under %s" % (bad[0], bad[1], bad[2]) if bad else "visit_item no longer pushes a FuncState")
     return rep
 
 
